@@ -216,7 +216,7 @@ Definition valid_client_msg_opt (m : option cmsg) : bool :=
   match m with None => false | Some m => valid_client_msg m end.
 
 (** the gate: parse, then validate *)
-Definition admit (t : ctext) : bool :=
+Definition gate_admits (t : ctext) : bool :=
   match parse_client_msg t with
   | Val m => valid_client_msg m
   | _ => false
@@ -271,7 +271,10 @@ Fixpoint cut_at_colon (s : str) : option (str * str) :=
            end
   end.
 
-Definition naddr_specb (s : str) : bool :=
+(** parametric in the kind predicate (see [cmsg_okb] below); the int64 test
+    is what any kind predicate on an int64 presupposes and is implied by
+    [kind_specb] *)
+Definition naddr_okb (kp : Z -> bool) (s : str) : bool :=
   match cut_at_colon s with
   | None => false
   | Some (ks, rest) =>
@@ -279,11 +282,13 @@ Definition naddr_specb (s : str) : bool :=
       | None => false
       | Some (pk, _) =>
           match numeral_value ks with
-          | Some k => kind_specb k && hexb 64 pk
+          | Some k => int64_okb k && kp k && hexb 64 pk
           | None => false
           end
       end
   end.
+
+Definition naddr_specb (s : str) : bool := naddr_okb kind_specb s.
 
 (** a tag of an event: at least a name, and the name is not empty *)
 Definition tag_okb (t : gtag) : bool :=
@@ -422,6 +427,70 @@ Definition wf_json_cmsg (escaped : bool) (j : jv) : bool :=
       else if str_eqb l L_REQ || str_eqb l L_COUNT then
         match rest with
         | JStr _ :: f :: fs => forallb wf_json_filter (f :: fs)
+        | _ => false
+        end
+      else if str_eqb l L_CLOSE then
+        match rest with [JStr _] => true | _ => false end
+      else false
+  | _ => false
+  end.
+
+(* ------------------------------------------------------------------ *)
+(** ** Structure that the text of an *accepted* message must have (oracle of
+       the correspondence check, soundness side): label, arity, member names
+       and JSON types.  Values (hex, ranges, ...) are judged on the decoded
+       message by [constraintsb].  Not claimed either way, hence accepted
+       here: a JSON null anywhere, an object with a duplicate member. *)
+
+Fixpoint has_null (j : jv) : bool :=
+  match j with
+  | JNull => true
+  | JArr l => (fix go (l : list jv) : bool :=
+                 match l with [] => false | x :: l' => has_null x || go l' end) l
+  | JObj m => (fix go (m : list (str * jv)) : bool :=
+                 match m with [] => false | (_, v) :: m' => has_null v || go m' end) m
+  | _ => false
+  end.
+
+Definition j_intlit (j : jv) : bool := j_int (fun _ => true) j.
+
+Definition struct_event (j : jv) : bool :=
+  match j with
+  | JObj m =>
+      negb (nodup_strb (List.map fst m)) ||
+      Nat.eqb (length m) 7 &&
+      member_is m k_id j_str && member_is m k_pubkey j_str &&
+      member_is m k_created_at j_intlit && member_is m k_kind j_intlit &&
+      member_is m k_tags (j_arr (j_arr j_str)) &&
+      member_is m k_content j_str && member_is m k_sig j_str
+  | _ => false
+  end.
+
+Definition struct_member (kv : str * jv) : bool :=
+  let (k, v) := kv in
+  if str_eqb k k_ids || str_eqb k k_authors then j_arr j_str v
+  else if str_eqb k k_kinds then j_arr j_intlit v
+  else if str_eqb k k_since || str_eqb k k_until || str_eqb k k_limit then j_intlit v
+  else match k with
+       | [h; c] => N.eqb h hash && is_letter c && j_arr j_str v
+       | _ => false
+       end.
+
+Definition struct_filter (j : jv) : bool :=
+  match j with
+  | JObj m => negb (nodup_strb (List.map fst m)) || forallb struct_member m
+  | _ => false
+  end.
+
+Definition struct_cmsg (j : jv) : bool :=
+  has_null j ||
+  match j with
+  | JArr (JStr l :: rest) =>
+      if str_eqb l L_EVENT || str_eqb l L_AUTH then
+        match rest with [e] => struct_event e | _ => false end
+      else if str_eqb l L_REQ || str_eqb l L_COUNT then
+        match rest with
+        | JStr _ :: f :: fs => forallb struct_filter (f :: fs)
         | _ => false
         end
       else if str_eqb l L_CLOSE then
